@@ -114,6 +114,8 @@ class Workspace:
             ignore=_IGNORE,
         )
         shutil.copy(os.path.join(self.repo, "protocol.py"), os.path.join(self.root, "protocol.py"))
+        if os.path.exists(os.path.join(self.repo, "protocol_build_hook.py")):
+            shutil.copy(os.path.join(self.repo, "protocol_build_hook.py"), os.path.join(self.root, "protocol_build_hook.py"))
         self._generator_cls = None
         self._tree_counter = 0
 
